@@ -425,12 +425,144 @@ Proof.
 Qed.
 
 (* the keys of the batched context are exactly the keys of the (first) sample context *)
-Lemma collate_ctx_keys : forall l x c0 l', l = c0 :: l' -> collate_ctx l = Some x -> keys x = map fst c0.
+Lemma collate_ctx_keys_aux : forall (L : list sctx) (c : sctx) x,
+  map_opt (fun kv => option_map (fun vs => (fst kv, vs)) (map_opt (lookup (fst kv)) L)) c = Some x ->
+  map fst x = map fst c.
 Proof.
-  intros l x c0 l' -> H. unfold collate_ctx in H. unfold keys.
-  remember (c0 :: l') as L. clear HeqL. revert x H. generalize c0 at 1 3. 
-  induction c1 as [|[k v] c1 IH]; intros x H; simpl in H.
+  induction c as [|[k v] c IH]; intros x H; simpl in H.
   - inversion H; reflexivity.
   - destruct (map_opt (lookup k) L); simpl in H; [|discriminate].
-    destruct (map_opt _ c1) eqn:E; [|discriminate]. inversion H; subst. simpl. f_equal. apply IH. reflexivity.
+    destruct (map_opt _ c) eqn:E; [|discriminate]. inversion H; subst. simpl. f_equal. apply IH. reflexivity.
 Qed.
+
+Lemma collate_ctx_keys : forall c0 l' x, collate_ctx (c0 :: l') = Some x -> keys x = map fst c0.
+Proof. intros c0 l' x H. unfold collate_ctx in H. apply collate_ctx_keys_aux in H. exact H. Qed.
+
+(* ---- padding ---- *)
+Lemma max_len_ge : forall rows r, In r rows -> (length r <= max_len rows)%nat.
+Proof.
+  induction rows as [|r0 rows IH]; intros r H; [contradiction|]. simpl. destruct H as [->|H].
+  - lia.
+  - specialize (IH r H). lia.
+Qed.
+
+Lemma max_len_attained : forall rows, rows <> [] -> exists r, In r rows /\ length r = max_len rows.
+Proof.
+  induction rows as [|r0 rows IH]; intros H; [congruence|]. simpl.
+  destruct rows as [|r1 rows'].
+  - exists r0. split; [left; reflexivity|]. simpl. lia.
+  - destruct IH as [r [Hin Hr]]; [discriminate|].
+    destruct (Nat.le_ge_cases (length r0) (max_len (r1 :: rows'))) as [Hle|Hge].
+    + exists r. split; [right; exact Hin|]. rewrite Hr. lia.
+    + exists r0. split; [left; reflexivity|]. lia.
+Qed.
+
+Lemma pad_row_length : forall M r, (length r <= M)%nat -> length (pad_row M r) = M.
+Proof. intros. unfold pad_row. rewrite app_length, repeat_length. lia. Qed.
+
+Lemma pad_col_padded : forall col out, pad_col col = Some out -> padded_field col out.
+Proof.
+  intros col out H. unfold pad_col in H. destruct col as [|[z|s] col']; [discriminate| |].
+  - exact H.
+  - unfold padded_field. destruct (map_opt get_seq (FSeq s :: col')) as [rows|] eqn:E; [|discriminate].
+    simpl in H. inversion H; subst. exists rows, (max_len rows).
+    split; [reflexivity|]. split; [apply max_len_ge|]. split.
+    + apply max_len_attained. intros ->. apply map_opt_length in E. discriminate E.
+    + split; [reflexivity|]. intros p Hp. apply in_map_iff in Hp. destruct Hp as [r [<- Hr]].
+      apply (pad_row_length (max_len rows) r). apply max_len_ge; assumption.
+Qed.
+
+Lemma map_opt_nth : forall A B (f : A -> option B) l r i a,
+  map_opt f l = Some r -> nth_error l i = Some a -> exists b, nth_error r i = Some b /\ f a = Some b.
+Proof.
+  induction l as [|a0 l IH]; intros r i a H Hn.
+  - destruct i; discriminate.
+  - simpl in H. destruct (f a0) eqn:Ea; [|discriminate]. destruct (map_opt f l) eqn:E; [|discriminate].
+    inversion H; subst. destruct i; simpl in *.
+    + inversion Hn; subst. eauto.
+    + eapply IH; eauto.
+Qed.
+
+Lemma nth_error_seq0 : forall n i, (i < n)%nat -> nth_error (seq 0 n) i = Some i.
+Proof.
+  intros n i H. rewrite (nth_error_nth' (seq 0 n) 0%nat) by (rewrite seq_length; exact H).
+  rewrite seq_nth by exact H. reflexivity.
+Qed.
+
+(* every field of the padding collator's output, position by position *)
+Lemma pad_items_fieldwise : forall s0 l cs,
+  pad_items (s0 :: l) = Some cs ->
+  length cs = length s0 /\
+  forall i, (i < length s0)%nat ->
+    exists col out, column i (s0 :: l) = Some col /\ nth_error cs i = Some out /\ padded_field col out.
+Proof.
+  intros s0 l cs H. unfold pad_items in H. split.
+  - apply map_opt_length in H. rewrite seq_length in H. exact H.
+  - intros i Hi. destruct (map_opt_nth _ _ _ _ _ i i H (nth_error_seq0 _ _ Hi)) as [out [Hn Hf]].
+    destruct (column i (s0 :: l)) as [col|] eqn:Ec; [|discriminate].
+    exists col, out. split; [reflexivity|]. split; [exact Hn|]. apply pad_col_padded; exact Hf.
+Qed.
+
+Lemma pad_pipeline_ctx : forall l t bo xo,
+  call_impl true [pad_member] (BRaw l) = (t, Ok bo xo) ->
+  exists c, pad_items (map fst l) = Some c /\ bo = BColl c /\ xo = collate_ctx (map snd l).
+Proof.
+  intros l t bo xo H. unfold call_impl, call_impl_gen in H. simpl in H. unfold step_split in H. simpl in H.
+  destruct (collate_ctx (map snd l)) as [x|]; [|discriminate]. simpl in H.
+  destruct (pad_items (map fst l)) as [c|]; [|discriminate]. simpl in H. inversion H; subst. eauto.
+Qed.
+
+Lemma pad_pipeline_noctx : forall l t bo xo,
+  call_impl false [pad_member] (BItems l) = (t, Ok bo xo) ->
+  exists c, pad_items l = Some c /\ bo = BColl c /\ xo = None.
+Proof.
+  intros l t bo xo H. unfold call_impl, call_impl_gen in H. simpl in H.
+  destruct (pad_items l) as [c|]; [|discriminate]. simpl in H. inversion H; subst. eauto.
+Qed.
+
+(* the old code (before the two _call_impl patches) *)
+Definition id_member (md : cmode) : member := {| mmode := md; mcollate := fun b x => Some (b, x) |}.
+
+(* ---- the statements of Property.v ---- *)
+Lemma exactly_once_where_asked :
+  forall rc ms b t bo xo,
+    call_impl rc ms b = (t, Ok bo xo) ->
+    well_ordered (map mmode ms) = true /\
+    t = spec_trace rc (map mmode ms) /\
+    count_dc t = (if all_none (map mmode ms) then 0 else 1)%nat.
+Proof.
+  intros rc ms b t bo xo H. destruct (ok_trace rc ms b t bo xo H) as [W E].
+  split; [exact W|]. split; [exact E|]. rewrite E. apply spec_trace_count.
+Qed.
+
+Lemma ctx_iff_configured :
+  forall rc ms b t bo xo, call_impl rc ms b = (t, Ok bo xo) -> (xo <> None <-> rc = true).
+Proof.
+  intros rc ms b t bo xo H. unfold call_impl, call_impl_gen in H. apply loop_ok_ctx in H.
+  destruct H as [x' ->]. destruct rc; split; intros; congruence.
+Qed.
+
+Lemma ctx_keys_exact :
+  forall m ms c0 l t bo xo,
+    Forall keeps_ctx (m :: ms) ->
+    call_impl true (m :: ms) (BRaw (c0 :: l)) = (t, Ok bo xo) ->
+    xo = collate_ctx (map snd (c0 :: l)) /\
+    exists x, xo = Some x /\ keys x = map fst (snd c0).
+Proof.
+  intros m ms c0 l t bo xo Hk H. pose proof (ctx_exact m ms (c0 :: l) t bo xo Hk H) as E.
+  split; [exact E|].
+  destruct xo as [x|].
+  - exists x. split; [reflexivity|]. simpl in E. symmetry in E. apply collate_ctx_keys in E. exact E.
+  - pose proof (proj2 (ctx_iff_configured _ _ _ _ _ _ H) eq_refl) as Hc. congruence.
+Qed.
+
+Lemma pad_pipelines :
+  (forall l t bo xo, call_impl true [pad_member] (BRaw l) = (t, Ok bo xo) ->
+     exists c, pad_items (map fst l) = Some c /\ bo = BColl c /\ xo = collate_ctx (map snd l)) /\
+  (forall l t bo xo, call_impl false [pad_member] (BItems l) = (t, Ok bo xo) ->
+     exists c, pad_items l = Some c /\ bo = BColl c /\ xo = None).
+Proof. split; [exact pad_pipeline_ctx|exact pad_pipeline_noctx]. Qed.
+
+Lemma pad_scalar_as_default :
+  forall z col out, pad_col (FScalar z :: col) = Some out -> collate_col (FScalar z :: col) = Some out.
+Proof. intros z col out H. exact H. Qed.
